@@ -112,6 +112,20 @@ def Op.InDomain : Op → View → Prop
   | .flatted, v => 2 ≤ v.lay.length ∧ v.isFlattable = true ∧ (v.ext.size ≤ 1 ∨ ∀ e ∈ v.exts.take 2, e.first = 0)
   | .call args, v => argsInDomain args v.exts
 
+instance (a : Arg) (e : Ext) : Decidable (a.InDomain e) :=
+  match a with
+  | .idx i => inferInstanceAs (Decidable (e.first ≤ i ∧ i < e.last))
+  | .rng a b => inferInstanceAs (Decidable (e.first ≤ a ∧ a ≤ b ∧ b ≤ e.last))
+  | .all => inferInstanceAs (Decidable True)
+
+instance argsInDomainDec : (as : List Arg) → (es : List Ext) → Decidable (argsInDomain as es)
+  | [], _ => isTrue trivial
+  | a :: as, e :: es => @instDecidableAnd (a.InDomain e) (argsInDomain as es) inferInstance (argsInDomainDec as es)
+  | _ :: _, [] => isFalse (fun h => h)
+
+instance (op : Op) (v : View) : Decidable (op.InDomain v) := by
+  cases op <;> unfold Op.InDomain <;> exact inferInstance
+
 def callShape : List Arg → List Ext → List Ext
   | [], es => es
   | _ :: _, [] => []
